@@ -6,6 +6,7 @@ mod c07;
 mod c08;
 mod c10;
 mod c11;
+mod c18;
 mod corpus;
 mod fmt;
 mod c19;
@@ -42,6 +43,10 @@ fn main() {
             if let Ok(t) = incan::format_source(&src) {
                 println!("-----\n{t}-----");
             }
+        }
+        "c18" => {
+            let scratch = args.get(5).cloned().unwrap_or_else(|| "/verif/.build/scratch".to_string());
+            c18::run(&mut out, tier, seed, &scratch)
         }
         "c19" => c19::run(&mut out, tier, seed),
         _ => {
